@@ -1,7 +1,7 @@
 // C02 conformance driver: timers of the cpp-tbox event loop (TimerEvent) and TimerPool.
 //   driver run <engines: epoll|select|both|alt> <scripts.jsonl> <out.ndjson>
 // One script per line:
-//   {"kind":"event"|"pool", "n":<slots>, "base":<ms>, "pre":<bool>,
+//   {"kind":"event"|"pool", "n":<slots>, "base":<ms>, "pre":<bool>, "M":<model huge unit>, "H":"<concrete huge unit, ms>",
 //    "top":[ {"o":"create","i":1}, {"o":"init","i":1,"d":2,"m":"persist"}, {"o":"enable","i":1}, {"o":"disable","i":1},
 //            {"o":"destroy","i":1}, {"o":"every","i":1,"d":2}, {"o":"after","i":1,"d":2}, {"o":"cancel","i":1},
 //            {"o":"adv","n":3}, {"o":"pass"}, ... ],
@@ -13,6 +13,13 @@
 // every callback return and every pass boundary is recorded as one ndjson line.  Operations that do not apply
 // to the driver's own slot table (e.g. "enable" of an empty slot) are skipped.  The trace is validated by TLC
 // against spec/Timers/Trace_Timers.tla; this program decides nothing.
+// Huge durations (the "huge" script family): TLC integers are 32-bit, the loop's clock is 64-bit.  A script may declare a
+// model unit M (e.g. 1000000) and a concrete unit H (e.g. 2^31+1, 2^32+5, 30 days = 2592000000 ms).  Every duration x of the
+// script (interval, clock advance), written x = h*M + r with |r| < M/2, is then applied to the real code as h*H + r milliseconds
+// while the trace keeps the model value x.  As long as the small parts r never add up to M/2 (the generator keeps all instants
+// within 1000 of a multiple of M) this relabelling of time preserves sums and order of all instants that occur, so the real
+// execution is a behaviour of the specification iff the relabelled one is; it puts real deadlines around the 32-bit boundaries
+// of the millisecond arithmetic.
 #include <vh.h>
 #include <chrono>
 #include <fstream>
@@ -50,6 +57,8 @@ struct Exec {
     bool is_pool = false;
     int n = 0;
     uint64_t base = 0;
+    uint64_t M = 0, H = 0;                    // huge-duration relabelling (0 = none)
+    long long mnow = 0;                       // clock in model units (== g_vnow - base when M == 0)
     std::vector<TimerEvent *> slot;           // event kind
     std::vector<TimerPool::TimerToken> tok;   // pool kind: last token handed out for the slot (kept when stale)
     std::vector<bool> live;                   // pool kind: token believed to be valid
@@ -61,7 +70,13 @@ struct Exec {
     size_t pc = 0;
     bool in_pass = false;
 
-    long long now() const { return (long long)(g_vnow - base); }
+    long long now() const { return mnow; }
+    // x = h*M + r with r in [-M/2, M/2)  ->  h*H + r   (e.g. "one unit minus 1 ms" = M-1 -> H-1)
+    uint64_t conc(long long x) const {
+        if (!M) return (uint64_t)x;
+        long long m = (long long)M, h = (x + m / 2) / m, r = x - h * m;
+        return (uint64_t)(h * (long long)H + r);
+    }
     std::string en() const {
         if (is_pool) return "";
         std::string s = ",\"en\":[";
@@ -98,7 +113,8 @@ struct Exec {
         if (o == "adv") {
             long long d = op.value("n", 0);
             if (d <= 0) return;
-            g_vnow += (uint64_t)d;
+            g_vnow += conc(d);
+            mnow += d;
             logop("adv", 0, ",\"n\":" + std::to_string(d));
             return;
         }
@@ -113,7 +129,7 @@ struct Exec {
                 if (!slot[i]) return;
                 long long d = op.value("d", 1);
                 std::string m = op.value("m", std::string("oneshot"));
-                bool r = slot[i]->initialize(std::chrono::milliseconds(d), m == "persist" ? Event::Mode::kPersist : Event::Mode::kOneshot);
+                bool r = slot[i]->initialize(std::chrono::milliseconds((long long)conc(d)), m == "persist" ? Event::Mode::kPersist : Event::Mode::kOneshot);
                 logop("init", i, ",\"d\":" + std::to_string(d) + ",\"m\":\"" + m + "\",\"ret\":" + b(r));
             } else if (o == "enable") {
                 if (!slot[i]) return;
@@ -135,9 +151,9 @@ struct Exec {
                 long long d = op.value("d", 1);
                 bool every = (o == "every");
                 if (every)
-                    tok[i] = pool->doEvery(std::chrono::milliseconds(d), [this, i] { on_fire(i); });
+                    tok[i] = pool->doEvery(std::chrono::milliseconds((long long)conc(d)), [this, i] { on_fire(i); });
                 else
-                    tok[i] = pool->doAfter(std::chrono::milliseconds(d), [this, i] { on_fire(i); live[i] = false; });
+                    tok[i] = pool->doAfter(std::chrono::milliseconds((long long)conc(d)), [this, i] { on_fire(i); live[i] = false; });
                 live[i] = true;
                 logop(every ? "every" : "after", i, ",\"d\":" + std::to_string(d));
             } else if (o == "cancel") {
@@ -151,7 +167,7 @@ struct Exec {
     long long wait_time() {
 #ifdef C02_WAITTIME
         auto *cl = dynamic_cast<tbox::event::CommonLoop *>(loop);
-        if (cl) return (long long)cl->getWaitTime();
+        if (cl) { long long w = (long long)cl->getWaitTime(); return w > 1000000 ? 1000000 : w; }   // only the sign matters; keep it a 32-bit value
 #endif
         return -2;
     }
@@ -186,6 +202,8 @@ static void run_one(const json &sc, const std::string &engine) {
     x.is_pool = sc.value("kind", std::string("event")) == "pool";
     x.n = sc.value("n", 3);
     x.base = sc.value("base", (uint64_t)0);
+    x.M = sc.value("M", (uint64_t)0);
+    x.H = x.M ? std::stoull(sc.value("H", std::string("0"))) : 0;
     x.top = sc.at("top");
     x.cb = sc.value("cb", json::object());
     x.slot.assign(x.n + 1, nullptr);
@@ -194,7 +212,8 @@ static void run_one(const json &sc, const std::string &engine) {
     x.fires.assign(x.n + 1, 0);
     g_vnow = x.base;
     std::string meta = std::string("\"kind\":\"") + (x.is_pool ? "pool" : "event") + "\",\"n\":" + std::to_string(x.n) +
-                 ",\"engine\":\"" + engine + "\",\"base\":\"" + std::to_string(x.base) + "\",\"pre\":" + (sc.value("pre", false) ? "true" : "false") + "}";
+                 ",\"engine\":\"" + engine + "\",\"base\":\"" + std::to_string(x.base) + "\",\"pre\":" + (sc.value("pre", false) ? "true" : "false") +
+                 ",\"M\":" + std::to_string(x.M) + ",\"H\":\"" + std::to_string(x.H) + "\"}";
     vh::T().line("{\"e\":\"Reset\"," + meta);
     vh::T().line("{\"e\":\"info\"," + meta);      // repeated so that a saved execution (cut after its Reset line) is self-describing
     x.loop = Loop::New(engine);
